@@ -159,6 +159,49 @@ theorem invalid_rejected (p : Params) (i : Input) (h : invalidGuarded p i = true
     · exact guard_fires_rejected p i (p.mutationRate == .absent) (.valueError .rateMissing)
         (by simp [checks, hm, initGuards]) (by simp [h])
 
+/-- Contrapositive of `invalid_rejected`: a call that returns a result had none of the guarded invalid
+classes. -/
+theorem ok_not_invalid (p : Params) (i : Input) (s : Shape) (h : outcome p i = .ok s) :
+    invalidGuarded p i = false := by
+  cases hg : invalidGuarded p i with
+  | false => rfl
+  | true =>
+    have := invalid_rejected p i hg
+    rw [h] at this
+    simp [Outcome.rejected] at this
+
+/-- **Kernel preconditions under the callers' guarantees.**  Whenever `variational_gamma` gets past its
+guards, the values handed to the numeric kernels satisfy what those kernels `assert`:
+`min_branch_length > 0` and `constr_iterations` a non-negative int (`util.constrain_ages`:
+`assert epsilon >= 0`, `assert max_iterations >= 0`), `max_shape > 1` (`variational.py`
+`assert max_shape >= 1.0` in the EP kernels), `max_iterations > 0`, a positive mutation rate
+(`ExpectationPropagation._check_valid_inputs`) and at least one mutation.  So these assertion sites
+cannot be reached with an invalid value through the public entry points. -/
+theorem ok_implies_kernel_preconditions (p : Params) (i : Input) (s : Shape)
+    (h : outcome p i = .ok s) (hm : p.method = .vg) :
+    p.minBranchLength ≠ .bad ∧ p.constrIterations ≠ .bad ∧ p.maxShape ≠ .bad ∧
+    p.maxIterations ≠ .bad ∧ p.mutationRate = .good ∧ i.noMutations = false ∧
+    p.populationSize = .absent ∧ p.priors = false := by
+  have hg := ok_not_invalid p i s h
+  simp only [invalidGuarded, hm, commonBad, vgBad, Bool.or_eq_false_iff, beq_eq_false_iff_ne,
+    bne_eq_false_iff_eq, ne_eq] at hg
+  obtain ⟨⟨⟨⟨h1, h2⟩, _⟩, _⟩, ⟨⟨⟨⟨⟨⟨h3, h4⟩, h5⟩, h6⟩, _⟩, h7⟩, h8⟩⟩ := hg
+  exact ⟨h1, h2, h4, h3, h8, h7, h5, h6⟩
+
+/-- The same for the discrete methods (`constrain_ages` preconditions, a usable population size or
+prior, a known probability space). -/
+theorem ok_implies_kernel_preconditions_discrete (p : Params) (i : Input) (s : Shape)
+    (h : outcome p i = .ok s) (hm : p.method = .io ∨ p.method = .mx) :
+    p.minBranchLength ≠ .bad ∧ p.constrIterations ≠ .bad ∧ p.probSpace ≠ .bad := by
+  have hg := ok_not_invalid p i s h
+  rcases hm with hm | hm
+  · simp only [invalidGuarded, hm, commonBad, discreteBad, Bool.or_eq_false_iff,
+      beq_eq_false_iff_ne, ne_eq] at hg
+    exact ⟨hg.1.1.1.1, hg.1.1.1.2, hg.2.1.2⟩
+  · simp only [invalidGuarded, hm, commonBad, discreteBad, Bool.or_eq_false_iff,
+      beq_eq_false_iff_ne, ne_eq] at hg
+    exact ⟨hg.1.1.1.1.1, hg.1.1.1.1.2, hg.1.2.1.2⟩
+
 /-- The only `TypeError`s of the chain are keyword errors: a keyword the method does not take, or a
 population-size dict with foreign keys.  Without those, every rejection is a `ValueError` or a
 `NotImplementedError` (the documented kinds). -/
